@@ -110,7 +110,10 @@ def _gen_song_dir(rng, d, files, dirs, prop):
         if rng.random() < 0.25:
             # a nested song directory (must never be discovered by the pack)
             files[d + "/" + s + "/nested.sm"] = b"#TITLE:nested;\n".hex()
-    # asset properties of the simfiles
+    # asset properties of the simfiles (entries whose names contain a line break are never
+    # named by a simfile: a carriage return inside a value is subject to text-mode newline
+    # translation on the native path, which is Python's, not the library's)
+    present = [n for n in present if "\r" not in n and "\n" not in n]
     for fmt, fnames in (("sm", sm_names), ("ssc", ssc_names)):
         for fn in fnames:
             assets = []
